@@ -194,22 +194,37 @@ def _tainted_names(f: Func, sources: set[str]) -> tuple[set[str], dict]:
     return tainted, why
 
 
+def _cohort_anchors(ctx):
+    """(function, label->blocks map name, key function name, stores into the merged-cohort map) found structurally"""
+    f = ctx.prog.func("core.find_group_cohorts")
+    lc = keyfn = None
+    for c in calls_in(f.node):
+        if norm(c.func).endswith("groupby") and len(c.args) == 2 and isinstance(c.args[0], ast.Name) and isinstance(c.args[1], ast.Call) \
+                and isinstance(c.args[1].func, ast.Attribute) and c.args[1].func.attr == "keys" and isinstance(c.args[1].func.value, ast.Name):
+            keyfn, lc = c.args[0].id, c.args[1].func.value.id
+    if lc is None:
+        raise AnalysisError("find_group_cohorts: exact cohorts are no longer obtained by groupby(<key function>, <label->blocks map>.keys()) (anchor)")
+    sc = ctx.resolver.scope(f)
+    empties = {n for n, b in sc.bind.items() if any(k == "assign" and isinstance(v, ast.Dict) and not v.keys for k, v in b)}
+    pm = parents_map(f.node)
+    stores = [n for n in walk_own(f.node) if isinstance(n, ast.Assign) and len(n.targets) == 1 and isinstance(n.targets[0], ast.Subscript)
+              and isinstance(n.targets[0].value, ast.Name) and n.targets[0].value.id in empties
+              and any(isinstance(a, ast.For) for a in ancestors(n, pm))]
+    if not stores:
+        raise AnalysisError("find_group_cohorts: no store into the merged-cohort map found (anchor vanished)")
+    return f, lc, keyfn, stores
+
+
 def rule_order(ctx) -> RuleResult:
     res = RuleResult("R-ORDER", "block order never passes through an unordered container on the way to a block selection",
                      min_instances=2)
     prog = ctx.prog
     # (a) unordered sources that reach the planner's block sets
-    fgc = prog.func("core.find_group_cohorts")
+    fgc, _lc, _kf, mstores = _cohort_anchors(ctx)
     unordered_keys = []
-    for n in walk_own(fgc.node):
-        if isinstance(n, ast.Assign) and len(n.targets) == 1 and isinstance(n.targets[0], ast.Subscript) \
-                and norm(n.targets[0].value) == "merged_cohorts":
-            k = n.targets[0].slice
-            cl = Closure(ctx, fgc)
-            # does the key's closure contain a set(...) that is not wrapped in a sanitizer?
-            unordered_keys.append((n, _has_unsanitized_set(ctx, fgc, k)))
-    if not unordered_keys:
-        raise AnalysisError("find_group_cohorts: store into merged_cohorts not found (anchor vanished)")
+    for n in mstores:
+        # does the key's closure contain a set(...) that is not wrapped in a sanitizer?
+        unordered_keys.append((n, _has_unsanitized_set(ctx, fgc, n.targets[0].slice)))
     source_unordered = any(u for _, u in unordered_keys)
     res.inst(f"find_group_cohorts: merged cohort block sets are {'built from an unordered set' if source_unordered else 'ordered at creation'}",
              "source")
@@ -284,15 +299,8 @@ def _has_unsanitized_set(ctx, f: Func, e: ast.AST, seen=None) -> bool:
 def rule_cover(ctx) -> RuleResult:
     res = RuleResult("R-COVER", "the block set attached to a cohort is computed from the blocks of every member label", min_instances=2)
     prog = ctx.prog
-    f = prog.func("core.find_group_cohorts")
-    txt = norm(f.node)
-    if "label_chunks" not in txt:
-        raise AnalysisError("find_group_cohorts: the label -> blocks map 'label_chunks' vanished (anchor)")
+    f, LC, KEYFN, stores = _cohort_anchors(ctx)
     scope = ctx.resolver.scope(f)
-    stores = [n for n in walk_own(f.node) if isinstance(n, ast.Assign) and len(n.targets) == 1 and isinstance(n.targets[0], ast.Subscript)
-              and norm(n.targets[0].value) == "merged_cohorts"]
-    if not stores:
-        raise AnalysisError("find_group_cohorts: store into merged_cohorts not found (anchor vanished)")
     for st in stores:
         key, val = st.targets[0].slice, st.value
         vname = val.id if isinstance(val, ast.Name) else None
@@ -307,7 +315,7 @@ def rule_cover(ctx) -> RuleResult:
                         if isinstance(g.iter, ast.Name) and g.iter.id == vname and isinstance(g.target, ast.Name):
                             # element must look up the member's own blocks
                             for s in ast.walk(n.elt):
-                                if isinstance(s, ast.Subscript) and norm(s.value) == "label_chunks" and g.target.id in names_in(s.slice):
+                                if isinstance(s, ast.Subscript) and norm(s.value) == LC and g.target.id in names_in(s.slice):
                                     ok = True
                 if isinstance(n, ast.Name) and n.id not in seen:
                     seen.add(n.id)
@@ -316,17 +324,17 @@ def rule_cover(ctx) -> RuleResult:
                             walk(node)
 
         walk(key)
-        res.inst(f"find_group_cohorts: merged_cohorts[{norm(key)}] = {norm(val)}: key derived from label_chunks[m] for every m in {vname}: {ok}",
+        res.inst(f"find_group_cohorts: {norm(st.targets[0].value)}[{norm(key)}] = {norm(val)}: key derived from {LC}[m] for every m in {vname}: {ok}",
                  f"merged|{norm(key)}")
         if not ok:
             res.report(f"core.find_group_cohorts|cohort-blocks-not-union|{norm(key)[:30]}", f.where(st), f.qualname,
-                       f"the block set {norm(key)} stored for cohort {norm(val)} is not computed from label_chunks[m] for every member m: a label "
+                       f"the block set {norm(key)} stored for cohort {norm(val)} is not computed from {LC}[m] for every member m: a label "
                        "merged by containment (>= 0.75, not 1.0) may occupy blocks outside that set, which are then silently dropped from "
                        "its cohort's tree")
     # exact cohorts: grouping key is each label's own block set
-    inv = prog.funcs.get("core.find_group_cohorts.invert")
+    inv = prog.funcs.get(f"core.find_group_cohorts.{KEYFN}")
     if inv is None:
-        raise AnalysisError("find_group_cohorts.invert vanished (anchor)")
+        raise AnalysisError(f"find_group_cohorts.{KEYFN} (the exact-cohort key function) is not a nested function (anchor)")
     p0 = inv.params[0]
     rets = [n for n in walk_own(inv.node) if isinstance(n, ast.Return) and n.value is not None]
     cl = Closure(ctx, inv)
@@ -338,13 +346,59 @@ def rule_cover(ctx) -> RuleResult:
         # closure must reach label_chunks[<param>]
         for b in [r.value] + [node for nm in c["names"] for kind, node in cl.scope.bind.get(nm, []) if kind == "assign"]:
             for s in ast.walk(b):
-                if isinstance(s, ast.Subscript) and norm(s.value) == "label_chunks" and p0 in names_in(s.slice):
+                if isinstance(s, ast.Subscript) and norm(s.value) == LC and p0 in names_in(s.slice):
                     good = True
-    res.inst(f"find_group_cohorts.invert: exact-cohort key is label_chunks[{p0}]: {good}", "exact")
+    res.inst(f"find_group_cohorts.{KEYFN}: exact-cohort key is {LC}[{p0}]: {good}", "exact")
     if not good:
-        res.report("core.find_group_cohorts.invert|exact-key", inv.where(), inv.qualname,
+        res.report("core.find_group_cohorts|exact-key", inv.where(), inv.qualname,
                    "the grouping key of exact cohorts is no longer the label's own block set")
-    gb = [c for c in calls_in(f.node) if norm(c.func).endswith("groupby") and c.args and norm(c.args[0]) == "invert"]
-    if not gb:
-        res.report("core.find_group_cohorts|exact-grouping", f.where(), f.qualname, "exact cohorts are no longer obtained by grouping labels on invert(label)")
+    return res
+
+
+# -------------------------------------------------------------------------------------------------
+def rule_axiskey(ctx) -> RuleResult:
+    res = RuleResult("R-AXISKEY", "per-axis split factors are looked up by axis key, never paired positionally with per-axis sequences",
+                     min_instances=4)
+    prog = ctx.prog
+    n = 0
+    for q in ("dask_array_ops._tree_reduce", "dask_array_ops.partial_reduce", "dask_array_ops.get_parts"):
+        f = prog.func(q)
+        for node in walk_own(f.node):
+            # uses of the split_every mapping
+            if isinstance(node, ast.Name) and node.id == "split_every" and isinstance(node.ctx, ast.Load):
+                n += 1
+        pm = parents_map(f.node)
+        for node in walk_own(f.node):
+            if isinstance(node, ast.Call) and isinstance(node.func, ast.Attribute) and isinstance(node.func.value, ast.Name) \
+                    and node.func.value.id == "split_every" and node.func.attr in ("values", "items", "keys"):
+                par = pm.get(id(node))
+                # tuple(split_every.items()) handed on as a hashable copy of the mapping is fine
+                ok = isinstance(par, ast.Call) and norm(par.func) in ("tuple", "dict", "sorted", "frozenset") and node.func.attr == "items"
+                res.inst(f"{q}: {norm(par)[:60] if par is not None else norm(node)}: {'mapping copy' if ok else 'positional use'}", f"{q}|{norm(node)}")
+                if not ok:
+                    res.report(f"{q}|positional-split_every|{norm(node)}", f.where(node), q,
+                               f"{norm(par)[:70] if par is not None else norm(node)}: split_every is keyed by the *reduced* axes; using its "
+                               f".{node.func.attr}() positionally pairs the factors with the leading (batch) axes whenever the reduced axes are "
+                               "not the first ones, so the tree depth / partitioning is computed from the wrong block counts")
+            if isinstance(node, ast.Subscript) and isinstance(node.value, ast.Name) and node.value.id == "split_every":
+                res.inst(f"{q}: split_every[{norm(node.slice)}] by key", f"{q}|sub|{norm(node.slice)}")
+    # the depth loop pairs block count and factor through the same axis index
+    tr = prog.func("dask_array_ops._tree_reduce")
+    loops = [l for l in walk_own(tr.node) if isinstance(l, ast.For) and "depth" in {x.id for x in ast.walk(l) if isinstance(x, ast.Name) and isinstance(x.ctx, ast.Store)}]
+    if not loops:
+        raise AnalysisError("_tree_reduce: the loop computing the tree depth was not found (anchor)")
+    for l in loops:
+        it = l.iter
+        ok = isinstance(it, ast.Call) and norm(it.func) == "enumerate" and isinstance(l.target, ast.Tuple) and len(l.target.elts) == 2
+        if ok:
+            i = norm(l.target.elts[0])
+            subs = [s for s in ast.walk(l) if isinstance(s, ast.Subscript) and norm(s.value) == "split_every"]
+            ok = bool(subs) and all(norm(s.slice) == i for s in subs)
+        res.inst(f"_tree_reduce depth loop: for {norm(l.target)} in {norm(l.iter)[:40]}: block count and split factor share the axis index: {ok}", "depth-loop")
+        if not ok:
+            res.report("dask_array_ops._tree_reduce|depth-axis-pairing", tr.where(l), tr.qualname,
+                       f"the depth loop 'for {norm(l.target)} in {norm(l.iter)[:50]}' does not look up split_every by the axis index of the block "
+                       "count it is combined with")
+    if n < 6:
+        raise AnalysisError(f"R-AXISKEY: only {n} uses of split_every found")
     return res
